@@ -1,6 +1,8 @@
 package udp
 
 import (
+	"net"
+
 	"github.com/postalsys/muti-metroo/internal/crypto"
 	"github.com/postalsys/muti-metroo/internal/protocol"
 )
@@ -19,4 +21,24 @@ func harnessC03UDPResponder() {
 	s, err := crypto.ComputeECDH(ipriv, rpub)
 	verif_assert(err == nil, "C03/udp-ack-key-refused")
 	verif_assert(crypto.DeriveSessionKey(s, open.RequestID, ipub, rpub, true).Key() == rk.Key(), "C03/udp-exit-key-differs-from-ingress-key")
+}
+
+// an all-zero or low-order remote key is refused: no session key on the association
+func harnessC03UDPDegenerate() {
+	h := &Handler{writer: &c04Writer{}}
+	assoc := &Association{}
+	var k [crypto.KeySize]byte
+	k[0], k[31] = verif_nondet_u8(), verif_nondet_u8()
+	open := &protocol.UDPOpen{RequestID: verif_nondet_u64(), EphemeralPubKey: k}
+	_, err := h.performKeyExchange(assoc, open, k, &net.UDPConn{})
+	verif_reach("C03/udp-degenerate")
+	if err != nil {
+		verif_reach("C03/udp-degenerate-refused")
+		verif_assert(assoc.GetSessionKey() == nil, "C03/udp-key-installed-after-refused-key-agreement")
+	} else {
+		verif_assert(assoc.GetSessionKey() != nil, "C03/udp-no-session-key-installed")
+	}
+	if k == ([crypto.KeySize]byte{}) {
+		verif_assert(err != nil, "C03/udp-accepted-all-zero-remote-key")
+	}
 }
